@@ -171,3 +171,18 @@ def eff_scale_for(H, W, max_hw):
     if (mh, mw) == (H, W):
         return 1.0
     return min(mh / H, mw / W)
+
+
+def tol(stride, H, W, max_hw, scale):
+    """Per-axis tolerance in original pixels: half an output cell (the property's claim) plus the
+    explicit integer-size rounding of the repository's resizing steps, which is not part of it:
+    the size matcher rounds the resized content (<= 0.5 px at the far edge) and resize_image
+    truncates int(dim*scale) (< 1 px at the far edge); 0.35 px covers uint8 coding / fit error."""
+    eff = eff_scale_for(H, W, max_hw)
+    allow = 0.35
+    mh, mw = (max_hw[0] or H, max_hw[1] or W) if (max_hw[0] or max_hw[1]) else (H, W)
+    if eff != 1.0:
+        allow += 0.5 * scale
+    if scale != 1.0:
+        allow += max(mh * scale - int(mh * scale), mw * scale - int(mw * scale))
+    return (0.5 * stride + allow) / (scale * eff)
